@@ -3,9 +3,12 @@ C12 — Authenticator data binary encoding follows the WebAuthn layout and round
 Property theorems only. Model: Model/AuthData.lean (attestation_fmt.rs, tied to the code by the
 correspondence stream; flag constants regenerated from flags.rs). Third-party CBOR code (ciborium,
 coset) enters as the interface `CborIface`: a reader that consumes exactly one item and accepts no
-proper prefix of an item — the theorems hold for every such reader.
+proper prefix of an item — the theorems hold for every such reader.  `C12_cbor_reader` proves that the
+RFC 8949 reader the driver runs in ciborium's place (Base/Cbor.lean, Model/AuthDataCbor.lean) is such a
+reader, and the `…_cbor` theorems are the same statements with that reader filled in.
 -/
 import PasskeyVerif.Lemmas.AuthDataFlags
+import PasskeyVerif.Lemmas.AuthDataCbor
 namespace PasskeyVerif.C12
 open PasskeyVerif.AuthData PasskeyVerif.Generated
 
@@ -247,5 +250,69 @@ theorem C12_id_too_long (aaguid credId key : Bytes) (h : credId.length > 65535) 
 theorem C12_id_accepted (aaguid credId key : Bytes) (h : credId.length ≤ 65535) :
     Acd.new aaguid credId key = some ⟨aaguid, credId, key⟩ := by
   unfold Acd.new; rw [if_pos h]
+
+/-! ### the interface filled in with the RFC 8949 reader the driver runs -/
+
+/-- **The CBOR reader meets the interface**: for every well-formed item `x` (definite lengths, shortest
+heads, arguments below 2^64) nested at most 256 deep, the reader run on `encode x` followed by any bytes
+consumes exactly `encode x`, and run on any proper prefix of `encode x` it fails. -/
+theorem C12_cbor_reader (x : Cbor.Item) (hwf : x.WF = true) (hd : x.depth ≤ 256) :
+    (∀ rest, AuthData.skip (Cbor.encode x ++ rest) = some (Cbor.encode x).length)
+    ∧ (∀ p q, Cbor.encode x = p ++ q → q ≠ [] → AuthData.skip p = none)
+    ∧ (∀ rest, Cbor.decode1 (Cbor.encode x ++ rest) = some (x, rest)) :=
+  ⟨fun rest => skip_item _ rest ⟨x, hwf, hd, rfl⟩,
+   fun p q he hq => skip_prefix _ p q ⟨x, hwf, hd, rfl⟩ he hq,
+   fun rest => Cbor.decode1_encode x hwf rest⟩
+
+/-- `C12_roundtrip` with the reader filled in -/
+theorem C12_roundtrip_cbor (a : AuthData) (h : WF cborIface a) :
+    ∃ bs, a.toVec = some bs ∧
+      AuthData.fromSlice AuthData.skip AuthData.validKey bs
+        = .ok { a with counter := some (a.counter.getD 0),
+                       flags := if a.acd.isSome then a.flags ||| Flags.AT else a.flags } :=
+  C12_roundtrip cborIface a h
+
+/-- `C12_rejects_truncated_acd` with the reader filled in: the COSE key is any well-formed item -/
+theorem C12_rejects_truncated_acd_cbor (hash : Bytes) (fb c0 c1 c2 c3 : UInt8)
+    (hh : hash.length = 32) (hat : fb &&& Flags.AT = Flags.AT)
+    (aaguid credId : Bytes) (key : Cbor.Item) (c1' : aaguid.length = 16) (c2' : credId.length ≤ 65535)
+    (hwf : key.WF = true) (hd : key.depth ≤ 256)
+    (p q : Bytes) (hpq : aaguid ++ be16 credId.length ++ credId ++ Cbor.encode key = p ++ q) (hq : q ≠ []) :
+    ∃ e, AuthData.fromSlice AuthData.skip AuthData.validKey (hash ++ fb :: c0 :: c1 :: c2 :: c3 :: p) = .error e :=
+  C12_rejects_truncated_acd cborIface hash fb c0 c1 c2 c3 hh hat ⟨aaguid, credId, Cbor.encode key⟩ c1' c2'
+    ⟨key, hwf, hd, rfl⟩ p q hpq hq
+
+/-- `C12_rejects_truncated_ext` with the reader filled in -/
+theorem C12_rejects_truncated_ext_cbor (hash : Bytes) (fb c0 c1 c2 c3 : UInt8)
+    (hh : hash.length = 32) (hnat : fb &&& Flags.AT ≠ Flags.AT) (hed : fb &&& Flags.ED = Flags.ED)
+    (ext : Cbor.Item) (hwf : ext.WF = true) (hd : ext.depth ≤ 256)
+    (p q : Bytes) (hpq : Cbor.encode ext = p ++ q) (hq : q ≠ []) :
+    ∃ err, AuthData.fromSlice AuthData.skip AuthData.validKey (hash ++ fb :: c0 :: c1 :: c2 :: c3 :: p) = .error err :=
+  C12_rejects_truncated_ext cborIface hash fb c0 c1 c2 c3 hh hnat hed _ p q ⟨ext, hwf, hd, rfl⟩ hpq hq
+
+/-- an ES256 COSE key `{1: 2, 3: -7, -1: 1, -2: x, -3: y}` and an `hmac-secret: true` extension map -/
+def exampleKeyMembers : List (Cbor.Item × Cbor.Item) := [(.uint 1, .uint 2), (.uint 3, .nint 6), (.nint 0, .uint 1),
+  (.nint 1, .bytes (List.replicate 32 7)), (.nint 2, .bytes (List.replicate 32 9))]
+def exampleKey : Cbor.Item := .map exampleKeyMembers
+def exampleExt : Cbor.Item := .map [(.text [104, 109, 97, 99, 45, 115, 101, 99, 114, 101, 116], .simple 21)]
+
+/-- the hypotheses of `C12_roundtrip_cbor` are met by a value with every optional section present -/
+def exampleData : AuthData :=
+  { rpIdHash := List.replicate 32 1, flags := Flags.UP ||| Flags.UV ||| Flags.ED, counter := some 7,
+    acd := some ⟨List.replicate 16 3, [1, 2, 3], Cbor.encode exampleKey⟩, ext := some (Cbor.encode exampleExt) }
+example : WF cborIface exampleData where
+  hash := by decide
+  counter := by decide
+  flagsOk := by decide
+  atIff := Or.inl rfl
+  edIff := Or.inl ⟨rfl, by decide⟩
+  acdOk := by
+    intro c hc; cases hc
+    exact ⟨by decide, by decide, ⟨exampleKey, by decide, by decide, rfl⟩,
+      show AuthData.validKey (Cbor.encode (.map exampleKeyMembers)) = true from
+        validKey_encode exampleKeyMembers (by decide) (by decide)⟩
+  extOk := by
+    intro e he; cases he
+    exact ⟨exampleExt, by decide, by decide, rfl⟩
 
 end PasskeyVerif.C12
